@@ -26,8 +26,7 @@ CLAIM = dict(
           "receive-length corner for unusual buffer sizes is checked by the truncating simulated socket."),
     technique="Lean 4 theorems over chunking/memory model + request-trace correspondence against a simulated machine")
 
-THEOREMS = ["dtype_table_is_hardware_rule"]
-THEOREMS_TODO = ["dtype_sound", "read_partition", "write_partition",
+THEOREMS = ["dtype_table_is_hardware_rule", "dtype_sound", "read_partition", "write_partition",
             "read_exact_any_order", "write_exact_any_order", "link_read_partition", "link_write_partition",
             "fill_exact"]
 
